@@ -44,10 +44,13 @@ type Server struct {
 	open      map[int]*Tx
 	// protocol violations by the client code (calls on ended transactions etc.)
 	Misuse []string
+	// Suspend: calls are neither counted, logged nor faulted (observer reads)
+	Suspend bool
+	Ended   map[int]string // tx id -> how it ended (commit, rollback, conn-drop)
 }
 
 func NewServer() *Server {
-	return &Server{Committed: map[string][]byte{}, Faults: map[int]int{}, Fired: map[string]int{}, open: map[int]*Tx{}}
+	return &Server{Committed: map[string][]byte{}, Faults: map[int]int{}, Fired: map[string]int{}, open: map[int]*Tx{}, Ended: map[int]string{}}
 }
 
 // Calls is the number of primitive calls made so far.
@@ -64,6 +67,9 @@ func (s *Server) OpenTx() []int {
 }
 
 func (s *Server) call(conn, tx int, op string) (int, *Call) {
+	if s.Suspend {
+		return 0, &Call{}
+	}
 	s.calls++
 	c := Call{Idx: s.calls, Tx: tx, Conn: conn, Op: op}
 	f := s.Faults[s.calls]
@@ -90,6 +96,8 @@ func (s *Server) Connect() *Conn {
 	return &Conn{s: s, id: s.connSeq}
 }
 
+func (c *Conn) ID() int { return c.id }
+
 func (c *Conn) BeginTx(ctx context.Context, opts pgx.TxOptions) (pgx.Tx, error) {
 	f, rec := c.s.call(c.id, 0, "BeginTx")
 	if c.closed {
@@ -110,12 +118,16 @@ func (c *Conn) BeginTx(ctx context.Context, opts pgx.TxOptions) (pgx.Tx, error) 
 
 // Close drops the connection: transactions left open are rolled back by the server.
 func (c *Conn) Close() {
-	c.s.call(c.id, 0, "ConnClose")
+	if !c.s.Suspend {
+		// not a failing primitive: logged, but neither counted nor faultable
+		c.s.Log = append(c.s.Log, Call{Idx: c.s.calls, Conn: c.id, Op: "ConnClose"})
+	}
 	c.closed = true
 	for _, t := range c.txs {
 		if !t.ended {
 			t.ended = true
 			t.endedBy = "conn-drop"
+			c.s.Ended[t.id] = "conn-drop"
 			delete(c.s.open, t.id)
 		}
 	}
@@ -166,6 +178,7 @@ func (t *Tx) Commit(ctx context.Context) error {
 	}
 	t.ended = true
 	t.endedBy = "commit"
+	t.s.Ended[t.id] = "commit"
 	delete(t.s.open, t.id)
 	if f == FaultErr {
 		rec.Err = "injected (not committed)"
@@ -197,6 +210,7 @@ func (t *Tx) Rollback(ctx context.Context) error {
 	}
 	t.ended = true
 	t.endedBy = "rollback"
+	t.s.Ended[t.id] = "rollback"
 	delete(t.s.open, t.id)
 	if f != 0 {
 		rec.Err = "injected"
